@@ -144,6 +144,7 @@ impl<P: SimPrefix> World<P> {
                 let old = ctx.mutate("insert", || mw.real.insert(P::make(*k), Val::new(*v)))?;
                 let exp = mw.model.insert(k.key(), (*k, *v)).map(|x| x.1);
                 chk!(ctx, "C01", old.as_ref().map(|o| o.payload) == exp, "ret:insert", "insert({k}) returned {:?}, model {:?}", old.as_ref().map(|o| o.payload), exp);
+                chk!(ctx, "C18", !k.has_host_bits() || old.as_ref().map(|o| o.payload) == exp, "host-bits-matter:insert", "insert({k}) (key given with host bits) returned {:?} as previous value, expected {:?}", old.as_ref().map(|o| o.payload), exp);
                 Ok(StepOut { touched: vec![i] })
             }
             Step::Remove { m, k } => {
@@ -152,6 +153,7 @@ impl<P: SimPrefix> World<P> {
                 let old = ctx.mutate("remove", || mw.real.remove(&P::make(*k)))?;
                 let exp = mw.model.remove(&k.key()).map(|x| x.1);
                 chk!(ctx, "C01", old.as_ref().map(|o| o.payload) == exp, "ret:remove", "remove({k}) returned {:?}, model {:?}", old.as_ref().map(|o| o.payload), exp);
+                chk!(ctx, "C18", !k.has_host_bits() || old.as_ref().map(|o| o.payload) == exp, "host-bits-matter:remove", "remove({k}) (key given with host bits) returned {:?}, expected {:?}", old.as_ref().map(|o| o.payload), exp);
                 Ok(StepOut { touched: vec![i] })
             }
             Step::RemoveKeepTree { m, k } => {
@@ -163,6 +165,7 @@ impl<P: SimPrefix> World<P> {
                     mw.canonical = false;
                 }
                 chk!(ctx, "C01", old.as_ref().map(|o| o.payload) == exp, "ret:remove_keep_tree", "remove_keep_tree({k}) returned {:?}, model {:?}", old.as_ref().map(|o| o.payload), exp);
+                chk!(ctx, "C18", !k.has_host_bits() || old.as_ref().map(|o| o.payload) == exp, "host-bits-matter:remove_keep_tree", "remove_keep_tree({k}) (key given with host bits) returned {:?}, expected {:?}", old.as_ref().map(|o| o.payload), exp);
                 Ok(StepOut { touched: vec![i] })
             }
             Step::RemoveChildren { m, k } => {
@@ -184,6 +187,7 @@ impl<P: SimPrefix> World<P> {
                     ctx.hit("probe.remove_children removed >=1");
                 }
                 chk!(ctx, "C10", after == exp, "remove_children:effect", "remove_children({k}): before {:?} after {:?} expected {:?}", before, after, exp);
+                chk!(ctx, "C18", !k.has_host_bits() || after == exp, "host-bits-matter:remove_children", "remove_children({k}) (selector given with host bits): before {:?} after {:?} expected {:?}", before, after, exp);
                 Ok(StepOut { touched: vec![i] })
             }
             Step::Retain { m, salt, keep, panic_at } => {
@@ -242,6 +246,7 @@ impl<P: SimPrefix> World<P> {
                     old
                 });
                 chk!(ctx, "C01", got == exp, "ret:get_mut", "get_mut({k}) saw {:?}, model {:?}", got, exp);
+                chk!(ctx, "C18", !k.has_host_bits() || got == exp, "host-bits-matter:get_mut", "get_mut({k}) (key given with host bits) saw {:?}, expected {:?}", got, exp);
                 self.expect_write_effect(ctx, i, got.map(|_| (k.key(), *v)).into_iter().collect(), "get_mut")?;
                 Ok(StepOut { touched: vec![i] })
             }
@@ -434,6 +439,7 @@ impl<P: SimPrefix> World<P> {
                 let new = ctx.mutate("set.insert", || sw.real.insert(P::make(*k)))?;
                 let exp = sw.model.insert(k.key(), *k).is_none();
                 chk!(ctx, "C01", new == exp, "ret:set.insert", "set.insert({k}) returned {new}, model {exp}");
+                chk!(ctx, "C18", !k.has_host_bits() || new == exp, "host-bits-matter:set.insert", "set.insert({k}) (key given with host bits) returned {new} (newly inserted?), expected {exp}");
                 Ok(StepOut { touched: vec![nm + i] })
             }
             Step::SRemove { s, k } => {
@@ -445,6 +451,7 @@ impl<P: SimPrefix> World<P> {
                 let got = ctx.mutate("set.remove", || sw.real.remove(&P::make(*k)))?;
                 let exp = sw.model.remove(&k.key()).is_some();
                 chk!(ctx, "C01", got == exp, "ret:set.remove", "set.remove({k}) returned {got}, model {exp}");
+                chk!(ctx, "C18", !k.has_host_bits() || got == exp, "host-bits-matter:set.remove", "set.remove({k}) (key given with host bits) returned {got}, expected {exp}");
                 Ok(StepOut { touched: vec![nm + i] })
             }
             Step::SRemoveKeepTree { s, k } => {
@@ -480,6 +487,7 @@ impl<P: SimPrefix> World<P> {
                 let after = sw.truth().ents;
                 let exp: Vec<Ent> = before.iter().filter(|e| !q.covers(e.key)).cloned().collect();
                 chk!(ctx, "C10", after == exp, "set.remove_children:effect", "set.remove_children({k}): before {:?} after {:?} expected {:?}", before, after, exp);
+                chk!(ctx, "C18", !k.has_host_bits() || after == exp, "host-bits-matter:set.remove_children", "set.remove_children({k}) (selector given with host bits): before {:?} after {:?} expected {:?}", before, after, exp);
                 Ok(StepOut { touched: vec![nm + i] })
             }
             Step::SRetain { s, salt, keep, panic_at } => {
